@@ -101,3 +101,17 @@ package curve
 //@   modifies nothing
 //@   allocates
 //@   ensures result != nil
+
+// Decoders of group elements from arbitrary bytes (length checks proved; field arithmetic is A-LIB-EC).
+//@ func (*Secp256k1Scalar).UnmarshalBinary
+//@   nopanic[C05,C15]
+//@   requires s != nil
+//@ func (*Secp256k1Point).UnmarshalBinary
+//@   nopanic[C05,C15]
+//@   requires p != nil
+//@ func (*Secp256k1Scalar).MarshalBinary
+//@   nopanic[C05]
+//@   requires s != nil
+//@ func (*Secp256k1Point).MarshalBinary
+//@   nopanic[C05]
+//@   requires p != nil
